@@ -15,6 +15,9 @@ You work ONLY inside `{d}` (a scratch git worktree of the repository is at `{d}/
 must go to `{d}/target`, your deliverables go to `{d}/out`). Do not read or write anything under
 `/verif` and do not touch `/repo` itself. The machine is shared: always run cargo as
 `CARGO_BUILD_JOBS=4 CARGO_TARGET_DIR={d}/target cargo ... --offline` (there is no network).
+NEVER use `git stash` (the stash is shared by every worktree of the repository and other people use
+sibling worktrees right now): to test the pristine tree use `git diff > {d}/out/patch.diff;
+git checkout -- <paths>; ...; git apply {d}/out/patch.diff`.
 
 ## The property
 
